@@ -46,6 +46,8 @@ func runC10(p *Prog, r *Result) {
 	checkErrorPosSanitised(p, r, pkg, "R10m")
 	r.Rule("R10n", "every single-byte index into the read buffer is reached only through a bounds test against len(p.bs) or a refill that produced bytes", 5)
 	checkReadBufferIndexGuarded(p, r, pkg, "R10n")
+	r.Rule("R10p", "a LangError is never reported just before a ParseError that may be the incomplete one (the first error wins)", 1)
+	checkLangErrorDoesNotShadow(p, r, pkg, "R10p")
 	r.Rule("R10d", "fill() advances the offset base by the cursor, once per call, before the cursor is reset", 1)
 
 	g := buildRefGraph(p)
@@ -257,6 +259,8 @@ var c10Controls = []Control{
 		Mutate: ctlReplaceAnywhere("\tif pos.IsRecovered() {\n\t\t// The token this error is about", "\tif pos.IsRecovered() && p.recoverErrorsMax == 0 {\n\t\t// The token this error is about")},
 	{Name: "peek-without-bounds-test", Rule: "R10n", WantKey: "advanceLitHdoc#p.bs[p.bsp] is inside the buffer", File: "syntax/lexer.go",
 		Mutate: ctlReplaceAnywhere("for p.quote == hdocBodyTabs && p.peek() == '\\t' {", "for p.quote == hdocBodyTabs && p.bs[p.bsp] == '\\t' {")},
+	{Name: "hint-before-the-unclosed-quote-error", Rule: "R10p", WantKey: "dblQuoted#p.checkLang then p.quoteErr", File: "syntax/parser.go",
+		Mutate: ctlReplaceAnywhere("\t\t\tp.quoteErr(q.Pos(), dblQuote)\n", "\t\t\tp.checkLang(q.Pos(), langBashLike, \"a hint\")\n\t\t\tp.quoteErr(q.Pos(), dblQuote)\n")},
 	{Name: "quoted-heredoc-eof-keeps-old-token", Rule: "R10g", WantKey: "quotedHdocWord#end-of-input exit", File: "syntax/lexer.go",
 		Mutate: ctlReplaceAnywhere("\t\t\tp.tok = _EOF\n\t\t\treturn nil\n\t\t}\n\t\tfor p.quote == hdocBodyTabs && r == '\\t' {", "\t\t\treturn nil\n\t\t}\n\t\tfor p.quote == hdocBodyTabs && r == '\\t' {")},
 	{Name: "parameter-name-eof-keeps-old-token", Rule: "R10g", WantKey: "paramExpParameter#end-of-input exit", File: "syntax/parser.go",
